@@ -587,7 +587,7 @@ class _Gen:
         if t[0] == "reg" and depth > 0 and not self.o.get("reg_add_nested", True):
             return []
         o = self.operand(scope)
-        mod = self.d(st.integers(2, 5)) if self.chance(1, 3) else None
+        mod = self.d(st.sampled_from([1, 2, 2, 3, 4, 5])) if self.chance(1, 3) else None
         if isinstance(o, list) and o[0] in ("reg", "loopvar") and t[0] == "reg" and o == t:
             pass
         return [["add", t, o, mod]]
@@ -660,7 +660,8 @@ class _Gen:
         if self.o.get("explicit_loop_register", True) and self.chance(1, 4):
             # a named register only for outermost loops (nested loops must not share one); "lowest-free" anywhere
             k_free = "free:" + str(self.d(st.integers(0, 15)))
-            explicit = self.pick(["lowest-free", "lowest-free", "C9", "R12", k_free, k_free]) if depth == 0 else self.pick(["lowest-free", k_free])
+            # (a named register of another bank may share its index with a register an enclosing construct holds)
+            explicit = self.pick(["lowest-free", "lowest-free", "C9", "R12", k_free, k_free]) if depth == 0 else self.pick(["lowest-free", k_free, "C%d" % (depth - 1), "M%d" % (10 + depth)])  # one name per nesting level: nested loops never share a register
         out = ["loop", style, lid, start, stop, step, body]
         if explicit:
             out.append(explicit)
